@@ -188,8 +188,24 @@ def _truncate(o, n=1200):
 def evaluate_chunked(evaluate, states, report, tier, size=50000):
     """Runs `evaluate` over consecutive slices of the state list, so that the sources, diagnostics and recorded token trees of at
     most `size` states are held in memory at a time (the verdict of a state never depends on another state in the checks that use this)."""
+    cap_gb = float(os.environ.get("VERIF_RSS_CAP_GB", "40"))
     for i in range(0, len(states), size):
         evaluate(states[i:i + size], report, tier)
+        rss = _rss_gb()
+        if rss > cap_gb:
+            # a cap inside the engine: a machinery exit (2) instead of the kernel's OOM killer taking the run down without a verdict
+            raise engine.MachineryError("resident memory %.1f GB exceeds the cap of %.0f GB after %d of %d states" % (rss, cap_gb, i + size, len(states)))
+
+
+def _rss_gb():
+    try:
+        with open("/proc/self/status") as f:
+            for line in f:
+                if line.startswith("VmRSS:"):
+                    return int(line.split()[1]) / 1024.0 / 1024.0
+    except OSError:
+        pass
+    return 0.0
 
 
 def words(alphabet, maxlen, minlen=0):
